@@ -11,5 +11,5 @@ PY
   sync)
     rm -rf $D/vh $D/env; cp -r /verif/harness $D/vh; cp -r /verif/env $D/env; rm -rf $D/env/*/target;;
   run)
-    cd $D/rdest && (ulimit -s unlimited; ulimit -v ${3:-20000000}; /usr/bin/time -f "%es %MKB" timeout ${4:-600} cargo kani --harness "$2" -Z stubbing --output-format terse --verbose 2>&1 | grep -E "^Checking harness|^VERIFICATION:|^Verification Time|^Failed Checks|^ File:|^error|KB$|l2_rename|^CBMC|variables,|Runtime (Symex|Solver|Post-process):|cover properties|bad_alloc|^ \*\*" | head -${5:-30});;
+    cd $D/rdest && (ulimit -s unlimited; ulimit -v ${3:-20000000}; /usr/bin/time -f "%es %MKB" timeout ${4:-600} cargo kani --harness "$2" -Z stubbing --output-format terse 2>&1 | grep -E "^Checking harness|^VERIFICATION:|^Verification Time|^Failed Checks|^ File:|^error|KB$|l2_rename|^CBMC|variables,|Runtime (Symex|Solver|Post-process):|cover properties|bad_alloc|^ \*\*" | head -${5:-30});;
 esac
